@@ -145,6 +145,27 @@ def run(run, h):
                 st = parse_ready(r["ready"])["state"]
                 ok = st["cb"] == cb - a and st["mb"] == mb + a
             run.check_monitor("boundary_payment_accepted_with_exact_balances", ok, dict(case, stage=r.get("stage")))
+        # the amount's scalar encoding as the verifier sees it: an honest proof for amount a is accepted for a and refused for
+        # every other decodable amount a' - in particular at the extremes, where a clamped or wrapped magnitude would make two
+        # wire amounts share one scalar (a = -(2^63-1) vs i64::MIN; a = 2^63-1 vs 2^63-2)
+        for cb, mb, a, others in ((0, MAX, -MAX, (-2 ** 63, -MAX + 1)), (MAX, 0, MAX, (MAX - 1, -MAX, -2 ** 63))):
+            e4 = full_establish(hh, Mx, rng, rng.randbytes(32), cb, mb, b"x")
+            if not e4["ok"]:
+                continue
+            hh.rng(rng.randrange(2 ** 31))
+            t4 = hh.call("ready_start", e4["ready"], a, "-", Mx.cconfig)
+            case = {"op": "extreme_amount_binding", "cb": cb, "mb": mb, "amount": a, "profile": prof}
+            run.case(case)
+            run.count("extreme amount binding")
+            if not run.check_monitor("boundary_payment_accepted_with_exact_balances", t4[0] == "ok", dict(case, stage="start")):
+                continue
+            hh.rng(6)
+            own = call(run, hh, prof, case, "m_allow", Mx.handle, a, t4[2], t4[3], "-")
+            run.check_monitor("proof_accepted_for_its_own_amount", own[0] == "1", dict(case, got=own))
+            for a2 in others:
+                hh.rng(6)
+                got2 = call(run, hh, prof, dict(case, other=a2), "m_allow", Mx.handle, a2, t4[2], t4[3], "-")
+                run.check_monitor("proof_refused_for_any_other_wire_amount", got2[0] == "0", dict(case, other_amount=a2, got=got2))
         # i64::MIN through the merchant's decoder (D4)
         e3 = full_establish(hh, Mx, rng, rng.randbytes(32), 10, 10, b"m")
         hh.rng(5)
